@@ -382,6 +382,20 @@ Theorem C03_dispatcher_walk_record_is_the_machines :
 Proof. exact CLDispWalk.dispatcher_walk_record_is_the_machines. Qed.
 Print Assumptions C03_dispatcher_walk_record_is_the_machines.
 
+(* list order of a dispatch: whenever a walk is about to call the callback of the node it stands on, every node it called
+   earlier (the machine's own record, dvis) that is still in the list stands before that node in the list *)
+Theorem C03_dispatcher_walk_visits_in_list_order :
+  forall prog sched t e n capt r w nd,
+    (forall t, Forall CLDispConc.call_wf (prog t)) ->
+    let c := CLDispConc.dcrun (CLDispConc.dinit prog) sched in
+    let G := snd (CLDispWalk.grun (CLDispConc.dinit prog) CLDispWalk.ginit sched) in
+    CLDispConc.thr c t = (CLDispConc.WalkAt e (Some n) capt, r) -> CLDispWalk.gw G t = Some w -> CLDispConc.node_of c e n = Some nd ->
+    GenCL.visit_cond (ctr nd) (match capt with Some k => k | None => CLDispConc.dcnt c e end) = true ->
+    ordered_visit (CLDisp.dget (CLDispConc.dmap c) e) (CLTrav.tvis (CLDispWalk.wst w)) n = true /\
+    skipn (CLDispWalk.wbase w) (CLDispWalk.vis_by t (CLDispConc.dvis c)) = CLTrav.tvis (CLDispWalk.wst w).
+Proof. exact CLDispWalk.dispatcher_walk_visits_in_list_order. Qed.
+Print Assumptions C03_dispatcher_walk_visits_in_list_order.
+
 Theorem C03_dispatcher_ghost_does_not_steer_the_machine :
   forall sched c G, fst (CLDispWalk.grun c G sched) = CLDispConc.dcrun c sched.
 Proof. exact CLDispWalk.grun_machine. Qed.
